@@ -157,6 +157,15 @@ def run_alias(chk, prog, alias=None):
                                 "in-place write into the module-level object %s: the value every later call (and every other instance) starts from is changed, so repeating a call "
                                 "with the same arguments can give a different result" % ph[2], line=inner.get("line"))
         chk.count("GLOBAL-WRITE")
+        # ... and no public function hands a module-level array out as its result: the caller owns what it is returned, and an in-place update of it would change
+        # what the next call - same arguments - returns
+        if is_public(f):
+            for ph in s.ret:
+                if ph[0] == "global":
+                    chk.finding("GLOBAL-RETURN", f.module.rel, f.qname, "returns the module-level object %s" % ph[2],
+                                "`%s` can return the module-level array `%s` itself (not a copy): every call taking that path returns the SAME object, so a caller that modifies its "
+                                "result changes what later calls with the same arguments return" % (f.qname, ph[2]), line=f.node.lineno)
+            chk.count("GLOBAL-RETURN")
     chk.counts["classes"] = n_cls
     chk.counts["calls_resolved"] = alias.resolved_calls
     chk.counts["calls_unresolved"] = alias.unresolved_calls
